@@ -163,6 +163,24 @@ def run(ctx, W, memo=None):
             dw = list(sw)
             per = [grid[r][c] for c in range(cc) for r in range(rr)]
             k = len(per)
+        elif p.get("bcast"):
+            # singleton arguments are broadcast: one source / destination / volume for k triples
+            which = ctx.choose("bcast", p["bcast"])   # e.g. "src:scalar", "dst:list1", "vol:scalar", "src:scalar+vol:scalar"
+            sw = [ctx.choose(f"src{i}", sc) for i in range(k)]
+            dw = [ctx.choose(f"dst{i}", dc) for i in range(k)]
+            per = [ctx.real(f"x{i}", vlo, common.BIG) for i in range(k)]
+            arg_s, arg_d, arg_v = list(sw), list(dw), list(per)
+            for part in which.split("+"):
+                what, form = part.split(":")
+                if what == "src":
+                    sw = [sw[0]] * k
+                    arg_s = sw[0] if form == "scalar" else [sw[0]]
+                elif what == "dst":
+                    dw = [dw[0]] * k
+                    arg_d = dw[0] if form == "scalar" else [dw[0]]
+                else:
+                    per = [per[0]] * k
+                    arg_v = per[0] if form == "scalar" else [per[0]]
         else:
             sw = [ctx.choose(f"src{i}", sc) for i in range(k)]
             dw = [ctx.choose(f"dst{i}", dc) for i in range(k)]
